@@ -11,6 +11,22 @@ import libmodel as L
 def none_arm_blocks(bi, pred):
     """blocks dominated by the None arm of an Option-returning call matching pred"""
     out = set()
+    # `if let Some(topic) = <Option<Arc<Topic>> value>` on a value obtained earlier (e.g. captured by a task)
+    for blk in bi.body.blocks:
+        if blk.cleanup or blk.term.k != "switch":
+            continue
+        for s in blk.stmts:
+            if s.k == "assign" and s.rv.k == "discr" and blk.term.discr is not None and blk.term.discr.place is not None \
+                    and s.lhs.is_local() and s.lhs.local == blk.term.discr.place.local:
+                pty = bi.body.place_ty(s.rv.place) or ""
+                if pty.startswith("std::option::Option<std::sync::Arc<crate::topics::topic::Topic"):
+                    arms = dict(blk.term.arms)
+                    none_bb = arms.get(0, blk.term.otherwise if 1 in arms else None)
+                    if none_bb is not None:
+                        none_bb = bi._skip_false(none_bb)
+                        for x in bi.cfg.reach:
+                            if bi.cfg.dominates(none_bb, x):
+                                out.add(x)
     for bb, t in bi.calls(pred):
         if t.dest is None or not t.dest.is_local() or t.target is None:
             continue
